@@ -1,5 +1,6 @@
 #!/usr/bin/env python3
 """C19 - secret material never appears on diagnostic channels.
+LeakModel.tla states the design rule (only a print the caller asked for puts a secret on a descriptor; the debug-trace build violates it).
 Leak.tla is the judge of Op events: an operation that is not an explicit print may not put any secret the harness can name on
 file descriptor 1 or 2.  The observations come from (a) harness/leakdrv.c (key generation/import/export, PKCS#8 open with right and
 wrong password, sign, decrypt, ECDH, SM9, failure paths of symmetric decryption and record unprotection) with fd 1/2 captured per
@@ -45,6 +46,10 @@ def find(hay, secrets):
 
 def body():
     c = Check("C19", "exploration")
+    c.add_model(vlib.tlc_model("LeakModel", require_actions=False), "LeakModel: 3 objects, operations succeed / fail / are printed on request: OnlyAskedSecretsAppear")
+    neg = vlib.tlc("LeakModel", "LeakModel_neg", workers=2, coverage=False, timeout=300)
+    if "OnlyAskedSecretsAppear" not in neg["violated"]:
+        raise RuntimeError("LeakModel_neg.cfg (unconditional key tracing) no longer violates OnlyAskedSecretsAppear")
     ops = []
     # (a) API operations
     exe = vlib.cc_driver("leakdrv", ["leakdrv.c", "vh.c"])
